@@ -81,6 +81,8 @@ func newRX(options plugintypes.OperatorOptions) (plugintypes.Operator, error) {
 		// Use binary regex matcher if expression matches non-utf8 bytes. The binary matcher does
 		// not match unicode, meaning we cannot support expressions with both unicode and non-utf8
 		// matches. This should not be commonly needed.
+		// the binary matcher gets the same dotall/multiline flags as every other @rx
+		options.Arguments = data
 		return newBinaryRX(options)
 	}
 
